@@ -280,8 +280,8 @@ for _k, (_t, _x) in ADD9.items():
     CLAIMED[_k] = (_tech + _t, _text + _x, _note)
 
 ADD10 = {
- "C18": ("; interval comparison of the code points the writer spells as \\uXXXX with the decoded values for which the escape reader makes an error (hex accumulator followed through phis, conversions and helper results); path form of the number rule (from every test of the token text or of ParseInt's error, every exit passes ParseFloat unless ParseInt accepted)",
-         " Also decides that no code point the writer escapes as \\uXXXX is refused by the reader on account of its decoded value, and that a float is tried for every number token ParseInt does not accept even when the conversions sit in a join."),
+ "C18": ("; interval comparison of the code points the writer spells as \\uXXXX with the decoded values for which the escape reader makes an error (hex accumulator followed through phis, conversions and helper results); path form of the number rule (from every test of the token text or of ParseInt's error, every exit passes ParseFloat unless ParseInt accepted); interval of number-token lengths refused by the reader vs. the lengths strconv can print",
+         " Also decides that no code point the writer escapes as \\uXXXX is refused by the reader on account of its decoded value, and that a float is tried for every number token ParseInt does not accept even when the conversions sit in a join, and that a bound on the length of number tokens leaves every printable length alone."),
 }
 for _k, (_t, _x) in ADD10.items():
     _tech, _text, _note = CLAIMED[_k]
